@@ -268,6 +268,15 @@ def write_side(path_base, kind, D, state, rng_seed):
     return path
 
 
+def written_name(path_base, sc, side):
+    """the file name write_side gives the (readable) side of a scenario"""
+    D = sc[side]
+    if sc["kind"] == "csv":
+        return path_base + ".csv"
+    as2d = D.get("as2d") and all(p[2] == 0 for p in D["pts"])
+    return path_base + (".xdmf" if as2d else ".vtu")
+
+
 def written_mesh(D, fallback_seed=0):
     """points, cells and fields in the order in which they are written to the file"""
     import random
